@@ -278,6 +278,149 @@ Example c07_steps_nonvacuous :
   ast_reach AstFixed 1 ra_lw_progs (ra_lw_final AstFixed) /\
   map att_natt (ast_tasks (ra_lw_final AstFixed)) = [2%nat] /\ ast_now (ra_lw_final AstFixed) = 2000.
 Proof. split; [exists ra_lw_sched; unfold ra_lw_final; exact eq_refl|]. split; vm_compute; reflexivity. Qed.
+
+(* ------------------------------------------------------------------------------------------------
+   (D21) The statements listed above as "NOT proved on the step model" ARE NOW PROVED for every reachable state
+   of the FIXED step model (all pool sizes, client programs, handler scripts, schedules, select choices), by
+   induction over the schedule with the decision invariant ast_dinv of proofs/AntsStepsDecide.v (what the ghost
+   fields att_natt / att_decided / att_onerr / att_done of a task look like at each pc of the dispatcher that
+   holds it, while it waits in taskChan, and after wg.Done) and the counting invariant of
+   proofs/AntsStepsCount.v / AntsStepsCountN.v (a callback in innerCallbackChan was not started; att_natt = number
+   of attempt records of the task, att_started <= number of those whose handler was started).
+   No ghost field was added to models/AntsSteps.v.  Values: err 0 = nil, -1 = context.DeadlineExceeded.
+   R = aso_retry (att_opt x) is the EFFECTIVE retry count (createTaskOptions: default 1, WithRetry ignores
+   counts <= 0), hence the hypothesis 1 <= R where the statement needs it (with R = 0 the model, like the code
+   would, calls the error callback with a nil error). *)
+From Got Require Import AntsStepsDecide AntsStepsOutcome AntsStepsCount AntsStepsCountN.
+
+(* handler invocations of a task <= attempts created for it <= R; at most one attempt is undecided; attempt k+2
+   exists only if the decision of attempt k+1 is stored and is a failure (err <> nil, a timeout included) *)
+Theorem ants_steps_attempts_sequential_bounded :
+  forall n progs s t x,
+    ast_reach AstFixed n progs s -> nth_error (ast_tasks s) t = Some x ->
+    (att_started x <= att_natt x)%nat /\ (att_natt x <= aso_retry (att_opt x))%nat /\
+    (length (att_decided x) <= att_natt x <= S (length (att_decided x)))%nat /\
+    (forall k v e, nth_error (att_decided x) k = Some (v, e) -> (S k < att_natt x)%nat -> e <> 0) /\
+    (forall k, (S k < att_natt x)%nat -> exists v e, nth_error (att_decided x) k = Some (v, e) /\ e <> 0).
+Proof.
+  intros n progs s t x R Hx. split; [exact (ast_steps_started_le_attempts _ _ _ _ _ _ R Hx)|].
+  exact (ast_steps_attempts_sequential_bounded n progs s t x R Hx).
+Qed.
+Print Assumptions ants_steps_attempts_sequential_bounded.
+
+(* while attempt i (0-based) of task t is in flight -- its dispatcher is parked before sendInnerCallback's enqueue,
+   before the select, or before one of the two stores -- exactly i decisions are stored, all failures, i+1 attempts
+   exist, and neither the error callback nor wg.Done has run: attempt i+1 is created only by the step that read
+   the failed decision of attempt i *)
+Theorem ants_steps_attempt_in_flight :
+  forall n progs s j pc t i x,
+    ast_reach AstFixed n progs s -> ast_pc_of s j = Some pc ->
+    (exists a, pc = AstDEnq t a i \/ pc = AstDSelect t a i \/ (exists v e, pc = AstDStoreRes t a i v e) \/ pc = AstDStoreTo t a i) ->
+    nth_error (ast_tasks s) t = Some x ->
+    att_natt x = S i /\ length (att_decided x) = i /\ Forall (fun p => snd p <> 0) (att_decided x) /\
+    att_onerr x = [] /\ att_done x = false.
+Proof.
+  intros n progs s j pc t i x R Hj [a Hpc] Hx.
+  apply (ast_steps_attempt_in_flight n progs s j pc t i x R Hj); [|exact Hx].
+  destruct Hpc as [->|[->|[(v & e & ->)| ->]]]; reflexivity.
+Qed.
+Print Assumptions ants_steps_attempt_in_flight.
+
+(* after wg.Done: result/err are the last stored decision; every earlier decision is a failure; the last one is the
+   first success (err = nil) or the R-th decision; the error callback ran exactly once, with that err, iff
+   err <> nil (and a callback is set) *)
+Theorem ants_steps_result_matches :
+  forall n progs s t x,
+    ast_reach AstFixed n progs s -> nth_error (ast_tasks s) t = Some x -> att_done x = true ->
+    (1 <= aso_retry (att_opt x))%nat ->
+    length (att_decided x) = att_natt x /\ (1 <= length (att_decided x) <= aso_retry (att_opt x))%nat /\
+    (att_res x, att_err x) = last (att_decided x) (0, 0) /\
+    Forall (fun p => snd p <> 0) (removelast (att_decided x)) /\
+    (att_err x = 0 \/ length (att_decided x) = aso_retry (att_opt x)) /\
+    att_onerr x = (if att_err x =? 0 then [] else if aso_onerr (att_opt x) then [att_err x] else []).
+Proof. exact ast_steps_result_matches. Qed.
+Print Assumptions ants_steps_result_matches.
+
+(* Get2 returns only (result, err) of a task whose wg.Done has run -- so (ants_steps_result_matches) the last
+   decision, after the error callback -- or the constant pair of a discarded Send; wg.Done itself comes after the
+   final store and the error callback (the outcome is already complete when the dispatcher is parked before it);
+   and nothing the outcome consists of changes afterwards, whatever late handlers and other threads do *)
+Theorem ants_steps_get2_after_decision :
+  (forall md n s tid hint v e,
+     snd (fst (ast_step md n s tid hint)) = AstEvRet (AstRPair v e) ->
+     (exists t x, ast_pc_of s tid = Some (AstGetWait t) /\ nth_error (ast_tasks s) t = Some x /\
+                  att_done x = true /\ v = att_res x /\ e = att_err x) \/
+     (exists th k rest, nth_error (ast_thr s) tid = Some th /\ ath_pc th = AstIdle /\ ath_prog th = AstGet k :: rest /\
+                  nth_error (ath_handles th) k = Some AstHDiscard /\ v = 0 /\ e = ast_err_discard)) /\
+  (forall n progs s j t x,
+     ast_reach AstFixed n progs s -> ast_pc_of s j = Some (AstDWgDone t) -> nth_error (ast_tasks s) t = Some x ->
+     (1 <= aso_retry (att_opt x))%nat ->
+     att_done x = false /\ length (att_decided x) = att_natt x /\
+     (att_res x, att_err x) = last (att_decided x) (0, 0) /\
+     (att_err x = 0 \/ length (att_decided x) = aso_retry (att_opt x)) /\
+     att_onerr x = (if att_err x =? 0 then [] else if aso_onerr (att_opt x) then [att_err x] else [])) /\
+  (forall n progs s sched t x,
+     ast_reach AstFixed n progs s -> nth_error (ast_tasks s) t = Some x -> att_done x = true ->
+     exists x', nth_error (ast_tasks (ast_run AstFixed n s sched)) t = Some x' /\
+       att_res x' = att_res x /\ att_err x' = att_err x /\ att_done x' = true /\ att_natt x' = att_natt x /\
+       att_decided x' = att_decided x /\ att_onerr x' = att_onerr x).
+Proof.
+  split; [exact ast_steps_get2_after_done|]. split.
+  - intros n progs s j t x R Hj Hx HR.
+    destruct (ast_steps_wgdone_after_final n progs s j t x R Hj Hx HR) as [Hd (A & B & C & D & E & F)].
+    repeat split; assumption.
+  - intros n progs s sched t x R Hx Hd.
+    destruct (ast_steps_frozen_after_done n progs s sched t x R Hx Hd) as (x' & H1 & H2).
+    exists x'. split; [exact H1|]. unfold ast_core in H2. injection H2 as E1 E2 E3 E4 E5 E6 E7 E8.
+    repeat split; congruence.
+Qed.
+Print Assumptions ants_steps_get2_after_decision.
+
+(* non-vacuity: in the late-write scenario (two attempts, both timed out, error callback set) the finished task
+   satisfies the hypotheses, and its outcome is the one the theorems describe *)
+Example c07_steps_outcome_nonvacuous :
+  exists x, nth_error (ast_tasks (ra_lw_final AstFixed)) 0 = Some x /\ att_done x = true /\
+    aso_retry (att_opt x) = 2%nat /\ att_natt x = 2%nat /\ att_started x = 2%nat /\
+    att_decided x = [(0, -1); (0, -1)] /\ att_onerr x = [-1].
+Proof. eexists. split; [vm_compute; reflexivity|]. repeat split; vm_compute; reflexivity. Qed.
+
+(* (D21) provenance of the decisions, for every reachable state of the fixed step model: decision k of task t is
+   (nil, DeadlineExceeded) or the pair returned by the handler invocation of attempt k of t -- there is an attempt
+   record with ata_task = t, ata_no = k whose handler has returned (ata_hst = 2), and the pair is the one scripted
+   for the invocation index ata_bi recorded when that handler was started (ast_step_pc: the i-th INVOCATION of a
+   task's handler behaves as element i of aso_behs).  Proof (proofs/AntsStepsProv.v, AntsStepsProv2.v): the pair is
+   carried unchanged from the handler's return (pc AstICtx) through the callback's ctx1.Done() test (AstISend: the
+   pair or the timeout pair), the per-attempt channel, the dispatcher's select (AstDStoreRes) to the store; task
+   options, an attempt's task / number and, once started, its invocation index never change.  With
+   ants_steps_result_matches: what Get2 returns is the timeout pair or the pair of the deciding attempt's handler. *)
+From Got Require Import AntsStepsProv AntsStepsProv2.
+
+Theorem ants_steps_decisions_from_handlers :
+  forall n progs s t x k p,
+    ast_reach AstFixed n progs s -> nth_error (ast_tasks s) t = Some x -> nth_error (att_decided x) k = Some p ->
+    p = (0, ast_err_deadline) \/
+    exists a y, nth_error (ast_atts s) a = Some y /\ ata_task y = t /\ ata_no y = k /\ ata_hst y = 2%nat /\
+      p = (asb_val (nth (ata_bi y) (aso_behs (att_opt x)) ast_dummy_beh),
+           asb_err (nth (ata_bi y) (aso_behs (att_opt x)) ast_dummy_beh)).
+Proof. exact ast_steps_decisions_from_handlers. Qed.
+Print Assumptions ants_steps_decisions_from_handlers.
+
+(* (D21) ">= 1 invocation" on the step model (both modes, every run): callbacks are never dropped while the pool is
+   open -- an attempt record whose handler was not started (ata_hst = 0) is still held by the dispatcher about to
+   enqueue it (sendInnerCallback) or travels in innerCallbackChan (ata_owner = AwChan), unless the pool has been
+   closed (then sendInnerCallback may take the closeChan branch).  Together with att_natt = number of attempt
+   records of a task (proofs/AntsStepsCountN.v) and FIFO reception by the inner workers (ast_step_pc), every
+   attempt of every task is invoked as soon as the inner workers get to it.  That the scheduler does get to it
+   (fairness) is not a statement about states; the C07 monitor checks it when all threads come to rest. *)
+From Got Require Import AntsStepsKeep.
+
+Theorem ants_steps_callbacks_never_dropped :
+  forall md n progs s a y,
+    ast_reach md n progs s -> ast_closed s = false -> nth_error (ast_atts s) a = Some y -> ata_hst y = 0%nat ->
+    ata_owner y = AwChan \/ exists i, ata_owner y = AwThread i.
+Proof. exact ast_steps_callbacks_never_dropped. Qed.
+Print Assumptions ants_steps_callbacks_never_dropped.
+
 (* The other entry points of the Task interface (task.go; models/AntsGetters.v): Get1() is Get2() with the
    error dropped, Err() returns the err field without waiting.  In every reachable state, for every task:
    a Get1 / Get2 call returns iff run() has returned (wg.Done) or the task was discarded -- so Get1 unblocks
@@ -316,3 +459,85 @@ Theorem ants_any_error_is_retried :
     at_rel (an_tk s' k) = at_rel (an_tk s k) /\ at_onerr (an_tk s' k) = at_onerr (an_tk s k).
 Proof. exact ants_any_error_is_retried_l. Qed.
 Print Assumptions ants_any_error_is_retried.
+
+(* ------------------------------------------------------------------------------------------------
+   (D21) PARTIAL link between the two ants models -- NOT the simulation ants_steps_refine_events.
+   What is proved: the per-task DECISION AUTOMATON of the event machine models/Ants.v is refined by the step model.
+   The view [av] of a task (proofs/AntsStepsRefine.v) = its phase without the time stamp (Queued | Enq a | Wait a |
+   Done), the fields, the decisions (attempt number from 1, pair) newest first, the error-callback arguments.
+   (1) ants_machine_task_automaton: in Ants.v the view of task k changes under AnPick k by Queued -> Enq 1, under
+       AnEnqueue k by Enq a -> Wait a, under AnDecide k (per-attempt channel) by Wait a -> av_after R onErr view a f
+       for some pair f (av_after is what an_after does to the view: store f as decision a; nil: Done | a < R: Enq (a+1)
+       | else onError(err) if registered; Done).
+   (2) ants_steps_refine_task_automaton: EVERY step of the fixed step model (any state reachable for any pool size,
+       programs, schedule, choices; effective retry >= 1) takes the view of the task its thread holds before or
+       after the step -- as seen from that thread's pc: AstDEnq i = Enq (i+1), AstDSelect i = Wait (i+1), the pcs from
+       the two stores to wg.Done = the view AFTER the decision whose pair the thread carries / has stored (the
+       event machine performs store, err test, retry or onError, wg.Done in its one AnDecide step), not held and
+       not done = Queued, done = the view after the last decision -- to the SAME view or to the result of exactly
+       one of those three transitions, with the same R and onErr flag; and a task the stepping thread holds neither
+       before nor after keeps everything the views are made of.
+   (3) ants_steps_view_done: the view of a finished task is its actual outcome (Done, result/err, all stored
+       decisions numbered 1.., the error callback's arguments) -- "the same per-task outcomes".
+   NOT covered: time (deadlines, AnAdvance, the instants in the logs), the capacity guards of AnPick / AnEnqueue /
+   AnStart, the order of events of different tasks, the handlers (AnStart / AnReturn / AnPublish, the attempt's
+   channel content: Ants.v scripts handlers per attempt with durations fixed at Send time, the step model per
+   invocation with durations decided by the schedule), Send / discard numbering, Get2 events.  So no history of
+   the event machine is constructed; what is shown is that both models drive a task through the same automaton. *)
+From Got Require Import AntsStepsRefine AntsStepsRefine2.
+
+Theorem ants_machine_task_automaton :
+  (forall cfg s k s', an_step cfg s (AnPick k) = Some s' ->
+     an_view (an_tk s' k) = av_set_ph (an_view (an_tk s k)) (AvEnq 1)) /\
+  (forall cfg s k s' a c, at_phase (an_tk s k) = AnEnq a c -> an_step cfg s (AnEnqueue k) = Some s' ->
+     an_view (an_tk s' k) = av_set_ph (an_view (an_tk s k)) (AvWait a)) /\
+  (forall cfg s k s' viaDone a c,
+     an_pub cfg = AnAttemptChannel -> at_phase (an_tk s k) = AnWait a c -> an_step cfg s (AnDecide k viaDone) = Some s' ->
+     exists f, an_view (an_tk s' k) =
+               av_after (ao_R (at_opts (an_tk s k))) (ao_onerr (at_opts (an_tk s k))) (an_view (an_tk s k)) a f).
+Proof. exact (conj an_pick_view (conj an_enqueue_view an_decide_view)). Qed.
+Print Assumptions ants_machine_task_automaton.
+
+Theorem ants_steps_refine_task_automaton :
+  forall n progs s tid hint pc pc' t x x',
+    ast_reach AstFixed n progs s ->
+    ast_pc_of s tid = Some pc -> ast_pc_of (fst (fst (ast_step AstFixed n s tid hint))) tid = Some pc' ->
+    nth_error (ast_tasks s) t = Some x ->
+    nth_error (ast_tasks (fst (fst (ast_step AstFixed n s tid hint)))) t = Some x' ->
+    (ast_holds pc t = true \/ ast_holds pc' t = true ->
+       (1 <= aso_retry (att_opt x))%nat ->
+       av_step (aso_retry (att_opt x)) (aso_onerr (att_opt x)) (ast_view pc t x) (ast_view pc' t x')) /\
+    (ast_holds pc t = false -> ast_holds pc' t = false ->
+       att_opt x' = att_opt x /\ att_decided x' = att_decided x /\ att_done x' = att_done x /\
+       att_res x' = att_res x /\ att_err x' = att_err x /\ att_onerr x' = att_onerr x).
+Proof.
+  intros n progs s tid hint pc pc' t x x' R Hpc Hpc' Hx Hx'. split.
+  - intros Hh HR. apply (ast_step_view n s tid hint pc pc' t x x'); try assumption.
+    + apply (ast_reach_inv _ _ _ _ R).
+    + apply (ast_reach_dinv _ _ _ R).
+    + apply (ast_reach_nostoreo _ _ _ R).
+  - intros H1 H2.
+    pose proof (ast_step_core_unheld n s tid hint pc pc' t x x' (ast_reach_inv _ _ _ _ R) (ast_reach_nostoreo _ _ _ R)
+                  Hpc Hpc' H1 H2 Hx Hx') as Hc.
+    unfold ast_core in Hc. injection Hc as E1 E2 E3 E4 E5 E6 E7 E8. repeat split; congruence.
+Qed.
+Print Assumptions ants_steps_refine_task_automaton.
+
+Theorem ants_steps_view_done :
+  forall n progs s t x,
+    ast_reach AstFixed n progs s -> nth_error (ast_tasks s) t = Some x -> att_done x = true ->
+    (1 <= aso_retry (att_opt x))%nat ->
+    ast_view_free x = {| av_ph := AvDone; av_fields := av_pair (att_res x, att_err x);
+                         av_dec := av_decs 1 (att_decided x) []; av_onerr := map av_err (att_onerr x) |}.
+Proof. exact ast_view_done. Qed.
+Print Assumptions ants_steps_view_done.
+
+(* non-vacuity: in the late-write run the dispatcher's third step is the AnEnqueue transition of task 0
+   (Enq 1 -> Wait 1), its fourth (select -> timeout) the AnDecide transition that, R being 2, leads to Enq 2 *)
+Example c07_refine_nonvacuous :
+  let s3 := ast_run AstFixed 1 (ast_init 1 ra_lw_progs) (firstn 5 ra_lw_sched) in
+  let s4 := ast_run AstFixed 1 (ast_init 1 ra_lw_progs) (firstn 6 ra_lw_sched) in
+  ast_pc_of s3 1 = Some (AstDEnq 0 0 0) /\ ast_pc_of s4 1 = Some (AstDSelect 0 0 0) /\
+  option_map (fun x => av_ph (ast_view (AstDEnq 0 0 0) 0 x)) (nth_error (ast_tasks s3) 0) = Some (AvEnq 1) /\
+  option_map (fun x => av_ph (ast_view (AstDSelect 0 0 0) 0 x)) (nth_error (ast_tasks s4) 0) = Some (AvWait 1).
+Proof. vm_compute. repeat split. Qed.
